@@ -6,6 +6,7 @@ import (
 	"fmt"
 	"go/token"
 	"go/types"
+	"sort"
 	"strings"
 
 	"golang.org/x/tools/go/ssa"
@@ -1592,9 +1593,9 @@ func (f *Frame) keepUnwrittenCells(before, after *PState, inBody func(*ssa.Basic
 		}
 		return rec(addr)
 	}
-	for val, v := range f.vals {
-		al, ok := val.(*ssa.Alloc)
-		if !ok || v.LV != nil || v.T == "" {
+	for _, al := range sortedAllocs(f.vals) {
+		v := f.vals[al]
+		if v.LV != nil || v.T == "" {
 			continue
 		}
 		hn, hs := ex.heapOfType(al.Type().(*types.Pointer).Elem())
@@ -1851,4 +1852,25 @@ func (f *Frame) selfYield(args []Val, in ssa.Instruction, st *PState, rt types.T
 		is.stops = append(is.stops, and(st.reach, res.T))
 	}
 	return res
+}
+
+// sortedAllocs: the Alloc instructions among the keys of a frame's value map, in a fixed order (the VC text must not
+// depend on Go's map iteration order: the solvers' behaviour on the same obligation would differ from run to run).
+func sortedAllocs(vals map[ssa.Value]Val) []*ssa.Alloc {
+	var out []*ssa.Alloc
+	for val := range vals {
+		if al, ok := val.(*ssa.Alloc); ok {
+			out = append(out, al)
+		}
+	}
+	sort.Slice(out, func(i, j int) bool {
+		if out[i].Pos() != out[j].Pos() {
+			return out[i].Pos() < out[j].Pos()
+		}
+		if len(out[i].Name()) != len(out[j].Name()) {
+			return len(out[i].Name()) < len(out[j].Name())
+		}
+		return out[i].Name() < out[j].Name()
+	})
+	return out
 }
